@@ -12,3 +12,4 @@ open Neutrino.CFHeaders
 #print axioms C03_honest_wins_counterexample_commits_false
 #print axioms genesis_inv
 #print axioms C03_detect_early_return
+#print axioms C03_honest_wins_counterexample_zero
